@@ -6,53 +6,68 @@ package xmss
 // build tag `verif`; it adds no symbol.
 
 //@ tagset ALLX := C01 C02 C04 C06 C08 C09 C11 C14 C15 C16
-//@ tagset XF := C01 C04 C06 C01L
+//@ tagset XF := C01 C04 C06
 
 // WOTS parameter sets for n = 32 (RFC 8391 section 3.1.1): len1 = ceil(8n/lg w), len2 = floor(lg(len1 (w-1))/lg w) + 1
 //@ pred wotsOK(p) := p.n == 32 && ((p.w == 4 && p.logW == 2 && p.len1 == 128 && p.len2 == 5 && p.len == 133 && p.keySize == 4256) || (p.w == 16 && p.logW == 4 && p.len1 == 64 && p.len2 == 3 && p.len == 67 && p.keySize == 2144) || (p.w == 256 && p.logW == 8 && p.len1 == 32 && p.len2 == 2 && p.len == 34 && p.keySize == 1088))
 
 //@ func NewWOTSParams
+//@   names n w |  | logW len1 len2 totalLen keySize
 //@   trusted "floating-point code (math.Log2/Ceil/Floor); the contract is the 3-point table for w in {4,16,256}, n = 32, decided exhaustively by running the real function (table back end)"
 //@   requires n == 32 && (w == 4 || w == 16 || w == 256)
 //@   ensures wotsOK(result) && result.w == w
 
 //@ func NewXMSSParams
+//@   names n h w k |  | 
 //@   inline
 //@ func calculateSignatureBaseSize
+//@   names keySize |  | 
 //@   inline
 //@ func getSignatureSize
+//@   names params |  | signatureBaseSize
 //@   inline
 
 // ---- descriptor.go ----
 
 //@ func NewQRLDescriptor
+//@   names height hashFunction signatureType addrFormatType |  | 
 //@   inline
 //@ func NewQRLDescriptorFromExtendedSeed
+//@   names extendedSeed |  | 
 //@   inline
 //@ func NewQRLDescriptorFromExtendedPK
+//@   names extendedPK |  | 
 //@   inline
 //@ func LegacyQRLDescriptorFromExtendedPK
+//@   names extendedPK |  | 
 //@   inline
 //@ func QRLDescriptor.GetHeight
+//@   names d |  | 
 //@   inline
 //@ func QRLDescriptor.GetHashFunction
+//@   names d |  | 
 //@   inline
 //@ func QRLDescriptor.GetSignatureType
+//@   names d |  | 
 //@   inline
 //@ func QRLDescriptor.GetAddrFormatType
+//@   names d |  | 
 //@   inline
 
 //@ func NewQRLDescriptorFromBytes
+//@   names descriptorBytes |  | 
 //@   panics "Descriptor size should be 3 bytes" when len(descriptorBytes) != 3
 //@   ensures result.hashFunction == descriptorBytes[0] % 16 && result.signatureType == descriptorBytes[0] / 16
 //@   ensures result.height == 2 * (descriptorBytes[1] % 16) && result.addrFormatType == descriptorBytes[1] / 16
 
 //@ func LegacyQRLDescriptorFromBytes
+//@   names descriptorBytes |  | 
 //@   panics "Descriptor size should be 3 bytes" when len(descriptorBytes) != 3
 //@   ensures result.hashFunction == descriptorBytes[0] % 16 && result.signatureType == descriptorBytes[0] / 16
 //@   ensures result.height == 2 * (descriptorBytes[1] % 16) && result.addrFormatType == descriptorBytes[1] / 16
 
 //@ func QRLDescriptor.GetBytes
+//@   names d |  | output
 //@   ensures result[0] == (d.signatureType % 16) * 16 + d.hashFunction % 16
 //@   ensures result[1] == (d.addrFormatType % 16) * 16 + (d.height / 2) % 16
 //@   ensures result[2] == 0
@@ -60,12 +75,14 @@ package xmss
 // ---- addresses ----
 
 //@ func IsValidXMSSAddress
+//@   names address |  | d
 //@   props C14 C11 C15 C16
 //@   ensures[C11,C16] result <==> (address[0] / 16 == 0 && address[1] / 16 == 0)
 
 // ---- hash.go ----
 
 //@ func coreHash
+//@   names hashFunction out typeValue key keyLen in inLen n |  | buf i i
 //@   props C06
 //@   requires n == 32 && keyLen <= 96 && len(key) >= keyLen && len(in) >= inLen && inLen + n + keyLen <= 4294967295
 //@   exit[XF] len(buf) == 32 + keyLen + inLen && forall d :: 0 <= d && d < 32 + keyLen + inLen ==> buf[d] == spec.corein(typeValue, spec.sub(key, keyLen), keyLen, spec.sub(in, inLen), inLen)[d]
@@ -79,6 +96,7 @@ package xmss
 //@   loop 2 invariant[XF] (forall d :: 0 <= d && d < 32 ==> buf[d] == spec.byte32(typeValue, 31-d)) && (forall k_ :: 0 <= k_ && k_ < keyLen ==> buf[32+k_] == key[k_]) && forall k_ :: 0 <= k_ && k_ < i ==> buf[32+keyLen+k_] == in[k_]
 
 //@ func prf
+//@   names hashFunction out in key keyLen |  | 
 //@   props C06
 //@   requires keyLen == 32 && len(key) >= 32 && len(in) >= 32
 //@   ensures[XF] hashFunction <= 2 ==> forall q :: 0 <= q && q < len(out) && q < 32 ==> out[q] == spec.prfArr(hashFunction, spec.sub(key, 32), spec.sub(in, 32))[q]
@@ -87,6 +105,7 @@ package xmss
 //@ pred prfAddr(hf, pubSeed, a, km) := spec.prfArr(hf, spec.sub(pubSeed, 32), spec.addrBytes(store(arr(a), 7, km)))
 
 //@ func hashH
+//@   names hashFunction out in pubSeed addr n |  | buf key bitMask byteAddr i
 //@   props C06
 //@   alias in out
 //@   requires n == 32 && len(in) >= 64 && len(pubSeed) >= 32
@@ -100,6 +119,7 @@ package xmss
 //@   loop 1 invariant[XF] forall d :: 0 <= d && d < i ==> buf[d] == spec.bxor(in[d], bitMask[d])
 
 //@ func hashF
+//@   names hashFunction out in pubSeed addr n |  | buf key bitMask byteAddr i
 //@   props C06
 //@   alias in out
 //@   requires n == 32 && len(in) >= 32 && len(pubSeed) >= 32
@@ -113,6 +133,7 @@ package xmss
 //@   loop 1 invariant[XF] forall d :: 0 <= d && d < i ==> buf[d] == spec.bxor(in[d], bitMask[d])
 
 //@ func hMsg
+//@   names hashFunction out in key n |  | 
 //@   props C06
 //@   requires n == 32 && len(key) <= 4096
 //@   ensures iserr(result) <==> (len(key) != 3*n || len(in) + n + len(key) > 4294967295)
@@ -127,6 +148,7 @@ package xmss
 //@ lemma xmss.L_xorArr_cong32[XF] : forall X1:arr, X2:arr, M:arr :: (forall d_ :: 0 <= d_ && d_ < 32 ==> X1[d_] == X2[d_]) ==> spec.xorArr(X1, M, 32) == spec.xorArr(X2, M, 32)
 //@ lemma xmss.L_randF_cong[XF] uses xmss.L_addrBytes_cong,xmss.L_xorArr_cong32 : forall hf, PS:arr, A1:arr, A2:arr, X1:arr, X2:arr :: (forall k_ :: 0 <= k_ && k_ < 7 ==> A1[k_] == A2[k_]) && (forall d_ :: 0 <= d_ && d_ < 32 ==> X1[d_] == X2[d_]) ==> spec.randF(hf, PS, A1, X1) == spec.randF(hf, PS, A2, X2)
 //@ func genChain
+//@   names hashFunction out in start steps params pubSeed addr |  | j i
 //@   alias in out same
 //@   use xmss.L_randF_cong
 //@   hide spec.randF
@@ -143,6 +165,7 @@ package xmss
 //@   loop 2 decreases params.w - i
 
 //@ func CalcBaseW
+//@   names output outputLen input params |  | in out total bits consumed
 //@   requires wotsOK(params) && len(output) >= outputLen && 8*len(input) >= outputLen*params.logW
 //@   ensures forall k_ :: 0 <= k_ && k_ < outputLen ==> output[k_] <= params.w - 1
 //@   ensures[XF] forall k_ :: 0 <= k_ && k_ < outputLen ==> output[k_] == spec.bwdig(input, k_, params.logW)
@@ -173,9 +196,11 @@ package xmss
 // the same with separate step / start variables: two chain terms then match whatever form their arithmetic arguments have
 //@ lemma xmss.L_chain_cong2[XF] uses xmss.L_chain_cong : forall k1, k2, hf, PS:arr, A1:arr, A2:arr, X:arr, s1, s2 :: k1 == k2 && s1 == s2 && (forall w_ :: 0 <= w_ && w_ < 6 ==> A1[w_] == A2[w_]) ==> spec.chain(hf, PS, A1, X, s1, k1) == spec.chain(hf, PS, A2, X, s2, k2)
 //@ lemma xmss.L_wpkNode_congA[XF] uses xmss.L_chain_cong : forall hf, PS:arr, A1:arr, A2:arr, SG:arr, so, M:arr, mo, lw, w, len1, sh, nb, i :: (forall w_ :: 0 <= w_ && w_ < 5 ==> A1[w_] == A2[w_]) ==> spec.wpkNode(hf, PS, A1, SG, so, M, mo, lw, w, len1, sh, nb, i) == spec.wpkNode(hf, PS, A2, SG, so, M, mo, lw, w, len1, sh, nb, i)
+//@ lemma xmss.L_wgenNode_congA[XF] uses xmss.L_chain_cong,-spec.chain : forall hf, PS:arr, A1:arr, A2:arr, SK:arr, sko, w, i :: (forall w_ :: 0 <= w_ && w_ < 5 ==> A1[w_] == A2[w_]) ==> spec.wgenNode(hf, PS, A1, SK, sko, w, i) == spec.wgenNode(hf, PS, A2, SK, sko, w, i)
 //@ pred wpkNode(hf, pubSeed, A, sig, msg, p, i) := spec.wpkNode(hf, spec.sub(pubSeed, 32), A, sig, msg, p.logW, p.w, p.len1, wShift(p), wBytes(p), i)
 //@ pred wpkByte(hf, pubSeed, A, sig, msg, p, pp) := wpkNode(hf, pubSeed, A, sig, msg, p, pp/32)[pp%32]
 //@ func wotsPKFromSig
+//@   names hashfunction pk sig msg wotsParams pubSeed addr |  | XMSSWOTSLEN XMSSWOTSLEN1 XMSSWOTSLEN2 XMSSWOTSLOGW XMSSWOTSW XMSSN baseW cSum cSumBytes cSumBaseW i i i offset
 //@   use xmss.L_chain_cong2
 //@   uselate xmss.L_wpkNode_congA
 //@   hide spec.chain
@@ -215,6 +240,7 @@ package xmss
 //@ pred ltab(len, t, l) := (len == 67 && ((t == 0 && l == 67) || (t == 1 && l == 34) || (t == 2 && l == 17) || (t == 3 && l == 9) || (t == 4 && l == 5) || (t == 5 && l == 3) || (t == 6 && l == 2) || (t == 7 && l == 1))) || (len == 133 && ((t == 0 && l == 133) || (t == 1 && l == 67) || (t == 2 && l == 34) || (t == 3 && l == 17) || (t == 4 && l == 9) || (t == 5 && l == 5) || (t == 6 && l == 3) || (t == 7 && l == 2) || (t == 8 && l == 1))) || (len == 34 && ((t == 0 && l == 34) || (t == 1 && l == 17) || (t == 2 && l == 9) || (t == 3 && l == 5) || (t == 4 && l == 3) || (t == 5 && l == 2) || (t == 6 && l == 1)))
 //@ pred ltreeT(len) := ite(len == 67, 7, ite(len == 133, 8, 6))
 //@ func lTree
+//@   names hashFunction params leaf wotsPK pubSeed addr |  | l n height bound i outStartOffset inStartOffset destStartOffset srcStartOffset
 //@   nooverflow
 //@   use xmss.L_randHash_cong
 //@   uselate xmss.L_lnode_cong2
@@ -244,6 +270,7 @@ package xmss
 //@ pred bufAuth(buffer, lo, authpath, k) := forall q_ :: 0 <= q_ && q_ < 32 ==> buffer[lo+q_] == authpath[32*k+q_]
 
 //@ func validateAuthPath
+//@   names hashFunc root leaf leafIdx authpath n h pub_seed addr |  | buffer j j j j authPathOffset i j j
 //@   props C04 C01 C06
 //@   pure
 //@   use xmss.L_randHash_cong
@@ -279,6 +306,7 @@ package xmss
 //@ pred vLeaf(hf, p, msg, sigMsg, pk) := spec.lnode(hf, spec.sub(pk[32:], 32), spec.addrTI(1, vIdx(sigMsg)), vWpk(hf, p, msg, sigMsg, pk), 0, p.len, ltreeT(p.len), 0)
 //@ pred vRoot(hf, p, msg, sigMsg, pk, h) := spec.foldTop(hf, spec.sub(pk[32:], 32), spec.addrTI(2, 0), vLeaf(hf, p, msg, sigMsg, pk), vIdx(sigMsg), sigMsg[36 + p.keySize:], h)
 //@ func xmssVerifySig
+//@   names hashFunction wotsParams msg sigMsg pk h |  | sigMsgOffset n wotsPK pkHash root hashKey pubSeed otsAddr lTreeAddr nodeAddr idx msgHash err i
 //@   props C04
 //@   pure
 //@   hide spec.chain
@@ -319,11 +347,13 @@ package xmss
 //@   loop 1 invariant[C04] forall k_ :: 0 <= k_ && k_ < i ==> root[k_] == pk[k_]
 
 //@ func getHeightFromSigSize
+//@   names sigSize wotsParamW |  | wotsParam signatureBaseSize
 //@   requires wotsParamW == 4 || wotsParamW == 16 || wotsParamW == 256
 //@   panics "Invalid signature size" when sigSize < 36 + spec.wotsKeySize(wotsParamW) || (sigSize - 4) % 32 != 0
 //@   ensures result == (sigSize - 36 - spec.wotsKeySize(wotsParamW)) / 32
 
 //@ func VerifyWithCustomWOTSParamW
+//@   names message signature extendedPK wotsParamW | result | wotsParam signatureBaseSize desc height hashFunction k w n params tmp
 //@   props C14 C04 C06 C15 C16
 //@   pure
 //@   requires wotsParamW == 4 || wotsParamW == 16 || wotsParamW == 256
@@ -337,6 +367,7 @@ package xmss
 //@   panics "For BDS traversal, H - K must be even, with H > K >= 2!"
 
 //@ func Verify
+//@   names message signature extendedPK | result | 
 //@   props C14 C04 C06 C15 C16
 //@   pure
 //@   ensures[C06,C04] result == purefn("xmss.VerifyWithCustomWOTSParamW", "r0", message, signature, extendedPK, 16)
@@ -346,12 +377,14 @@ package xmss
 //@   panics "For BDS traversal, H - K must be even, with H > K >= 2!"
 
 //@ func GetXMSSAddressFromPK
+//@   names ePK |  | desc address descBytes hashedKey
 //@   props C14 C11 C15 C16 C09
 //@   panics "Address format type not supported" when ePK[1] / 16 != 0
 //@   ensures[C11,C16,C09] result[0] == ePK[0] && result[1] == ePK[1] && result[2] == 0
 //@   ensures[C11,C16,C09] forall q :: 0 <= q && q < 17 ==> result[3+q] == spec.shake(256, spec.sub(ePK[0:], 67), 67, 15+q)
 
 //@ func GetLegacyXMSSAddressFromPK
+//@   names ePK |  | desc address addressOffset descBytes i hashedKey i hashedKey2 hashedKey2Offset i
 //@   props C14 C11 C15
 //@   panics "Address format type not supported" when ePK[1] / 16 != 0
 //@   ensures[C11] result[0] == ePK[0] && result[1] == ePK[1] && result[2] == 0
@@ -364,6 +397,7 @@ package xmss
 //@   loop 3 invariant forall k_ :: 0 <= k_ && k_ < i ==> address[35+k_] == hashedKey2[28+k_]
 
 //@ func IsValidLegacyXMSSAddress
+//@   names address |  | d hashedKey
 //@   props C14 C11 C15
 //@   ensures[C11] result <==> (address[1] / 16 == 0 && forall q :: 0 <= q && q < 4 ==> address[35+q] == spec.sha256(spec.sub(address[0:], 35), 35, 28+q))
 
@@ -383,11 +417,13 @@ package xmss
 //@ aset bdsAll := $.stack, $.stackOffset, $.stackLevels, $.auth, $.keep, $.treeHash, $.retain, $.nextLeaf
 
 //@ func NewBDSState
+//@   names height n k |  | stackOffset stack stackLevels auth keep treeHash retain i
 //@   trusted "appends freshly allocated *TreeHashInst to a slice of pointers (outside the subset); contract = shapes of the allocated buffers, confirmed by the label run which executes the real function for every height"
 //@   requires 4 <= height && height <= 30 && n == 32 && k == 2
 //@   ensures bdsShape(result, height)
 
 //@ func treeHashSetup
+//@   names hashFunction node index bdsState skSeed xmssParams pubSeed addr |  | n h k otsAddr lTreeAddr nodeAddr lastNode bound stack stackLevels stackOffset nodeH i i authStart stackStart stackStart retainStart stackStart stackStart
 //@   reads addr[0:3]
 //@   trusted "BDS traversal internals: behaviour decided by the bounded label run (C01); frame and purity by the effects back end"
 //@   pure
@@ -395,6 +431,7 @@ package xmss
 //@   assigns node[0:32], bdsAll(bdsState)
 
 //@ func bdsRound
+//@   names hashFunction bdsState leafIdx skSeed params pubSeed addr |  | n h k tau buf otsAddr lTreeAddr nodeAddr i srcOffset destOffset srcOffset i offset rowIdx srcOffset compareValue i startIdx
 //@   reads addr[0:3]
 //@   trusted "BDS traversal internals: behaviour decided by the bounded label run (C01); frame and purity by the effects back end"
 //@   pure
@@ -402,6 +439,7 @@ package xmss
 //@   assigns bdsAll(bdsState)
 
 //@ func bdsTreeHashUpdate
+//@   names hashFunction bdsState updates skSeed params pubSeed addr |  | h k used lMin level low j i
 //@   reads addr[0:3]
 //@   trusted "BDS traversal internals: behaviour decided by the bounded label run (C01); frame and purity by the effects back end"
 //@   pure
@@ -409,6 +447,7 @@ package xmss
 //@   assigns bdsAll(bdsState)
 
 //@ func getSeed
+//@   names hashFunction seed skSeed n addr |  | bytes
 //@   props C06
 //@   requires n == 32 && len(skSeed) >= 32
 //@   ensures[XF] hashFunction <= 2 ==> forall q :: 0 <= q && q < len(seed) && q < 32 ==> seed[q] == spec.prfArr(hashFunction, spec.sub(skSeed, 32), spec.addrBytes(store(store(store(arr(old(addr)), 5, 0), 6, 0), 7, 0)))[q]
@@ -416,6 +455,7 @@ package xmss
 //@   assigns seed, *addr
 
 //@ func expandSeed
+//@   names hashFunction outSeeds inSeeds n len |  | ctr i
 //@   props C06
 //@   requires n == 32 && len <= 133 && len(outSeeds) >= len*n && len(inSeeds) >= 32
 //@   ensures[XF] hashFunction <= 2 ==> forall i_, q :: 0 <= i_ && i_ < len && 0 <= q && q < 32 ==> outSeeds[32*i_+q] == spec.prfArr(hashFunction, spec.sub(inSeeds, 32), spec.toByte32(i_))[q]
@@ -437,12 +477,15 @@ package xmss
 //@ lemma xmss.L_wots_id[XF] uses xmss.L_wots_idA,xmss.L_wots_idB,-spec.chain,-spec.wdig,-spec.wsigNode,-spec.wpkNode,-spec.wgenNode : forall hf, PS:arr, A:arr, SK:arr, sko, SG:arr, so, M:arr, mo, lw, w, len1, sh, nb, i, q_ :: 0 <= spec.wdig(M, mo, i, lw, w, len1, sh, nb) && spec.wdig(M, mo, i, lw, w, len1, sh, nb) <= w - 1 && (forall d_ :: 0 <= d_ && d_ < 32 ==> SG[so + 32*i + d_] == spec.wsigNode(hf, PS, A, SK, sko, M, mo, lw, w, len1, sh, nb, i)[d_]) && 0 <= q_ && q_ < 32 ==> spec.wpkNode(hf, PS, A, SG, so, M, mo, lw, w, len1, sh, nb, i)[q_] == spec.wgenNode(hf, PS, A, SK, sko, w, i)[q_]
 //@ pred wsigN(hf, pubSeed, A, sk, msg, p, i) := spec.wsigNode(hf, spec.sub(pubSeed, 32), A, sk, msg, p.logW, p.w, p.len1, wShift(p), wBytes(p), i)
 //@ func wotsSign
+//@   names hashFunction sig msg sk params pubSeed addr |  | baseW csum i len2Bytes cSumBytes cSumBaseW i i offset
 //@   use xmss.L_chain_cong2
 //@   hide spec.chain
 //@   hide spec.bwdig
+//@   uselate xmss.L_wsigNode_congA
 //@   requires wotsOK(params) && len(sig) >= params.keySize && len(msg) >= 32 && len(sk) >= 32 && len(pubSeed) >= 32
 //@   ensures forall k_ :: 0 <= k_ && k_ < 5 ==> addr[k_] == old(addr[k_])
 //@   ensures[XF] hashFunction <= 2 ==> forall i_, q_ :: 0 <= i_ && i_ < params.len && 0 <= q_ && q_ < 32 ==> sig[32*i_+q_] == wsigN(hashFunction, pubSeed, arr(old(addr)), sk, msg, params, i_)[q_]
+//@   ensures[XF] hashFunction <= 2 ==> forall A2:arr :: (forall w_ :: 0 <= w_ && w_ < 5 ==> A2[w_] == old(addr[w_])) ==> forall i_, q_ :: 0 <= i_ && i_ < params.len && 0 <= q_ && q_ < 32 ==> sig[32*i_+q_] == wsigN(hashFunction, pubSeed, A2, sk, msg, params, i_)[q_]
 //@   assigns sig, *addr
 //@   after misc.ToByteLittleEndian 1 assert[XF] forall d_ :: 0 <= d_ && d_ < wBytes(params) ==> cSumBytes[d_] == spec.toByteN(wCsum(msg, params), wBytes(params))[d_]
 //@   after xmss.CalcBaseW 2 assert[XF] forall k_ :: 0 <= k_ && k_ < params.len2 ==> cSumBaseW[k_] == spec.bwdig(spec.toByteN(wCsum(msg, params), wBytes(params)), 0, k_, params.logW)
@@ -463,11 +506,14 @@ package xmss
 
 //@ pred wgenN(hf, pubSeed, A, sk, p, i) := spec.wgenNode(hf, spec.sub(pubSeed, 32), A, sk, p.w, i)
 //@ func wOTSPKGen
+//@   names hashFunction pk sk wOTSParams pubSeed addr |  | i pkStartOffset
 //@   use xmss.L_chain_cong
 //@   hide spec.chain
+//@   uselate xmss.L_wgenNode_congA
 //@   requires wotsOK(wOTSParams) && len(pk) >= wOTSParams.keySize && len(sk) >= 32 && len(pubSeed) >= 32
 //@   ensures forall k_ :: 0 <= k_ && k_ < 5 ==> addr[k_] == old(addr[k_])
 //@   ensures[XF] hashFunction <= 2 ==> forall i_, q_ :: 0 <= i_ && i_ < wOTSParams.len && 0 <= q_ && q_ < 32 ==> pk[32*i_+q_] == wgenN(hashFunction, pubSeed, arr(old(addr)), sk, wOTSParams, i_)[q_]
+//@   ensures[XF] hashFunction <= 2 ==> forall A2:arr :: (forall w_ :: 0 <= w_ && w_ < 5 ==> A2[w_] == old(addr[w_])) ==> forall i_, q_ :: 0 <= i_ && i_ < wOTSParams.len && 0 <= q_ && q_ < 32 ==> pk[32*i_+q_] == wgenN(hashFunction, pubSeed, A2, sk, wOTSParams, i_)[q_]
 //@   assigns pk, *addr
 //@   after xmss.expandSeed 1 assert[XF] hashFunction <= 2 ==> forall i_, q_ :: 0 <= i_ && i_ < wOTSParams.len && 0 <= q_ && q_ < 32 ==> pk[32*i_+q_] == spec.prfArr(hashFunction, spec.sub(sk, 32), spec.toByte32(i_))[q_]
 //@   loop 1 invariant 0 <= i && i <= wOTSParams.len && forall k_ :: 0 <= k_ && k_ < 5 ==> addr[k_] == old(addr[k_])
@@ -476,11 +522,29 @@ package xmss
 //@   loop 1 assert[XF] hashFunction <= 2 ==> forall q_ :: 0 <= q_ && q_ < 32 ==> pk[32*i+q_] == wgenN(hashFunction, pubSeed, arr(old(addr)), sk, wOTSParams, i)[q_]
 //@   loop 1 invariant[XF] hashFunction <= 2 ==> forall i_, q_ :: 0 <= i_ && i_ < i && 0 <= q_ && q_ < 32 ==> pk[32*i_+q_] == wgenN(hashFunction, pubSeed, arr(old(addr)), sk, wOTSParams, i_)[q_]
 
+// genLeafWOTS (RFC 8391: leaf = ltree(WOTS_genPK(one-time seed))): the one-time seed is PRF(skSeed, OTS address with
+// words 5..7 cleared); the leaf is node 0 of the top L-tree level over the generated WOTS+ public key.
+//@ pred otsSeedOf(hf, skSeed, A) := spec.prfArr(hf, spec.sub(skSeed, 32), spec.addrBytes(store(store(store(A, 5, 0), 6, 0), 7, 0)))
+//@ pred leafOf(hf, p, skSeed, pubSeed, LA, OA) := spec.lnode(hf, spec.sub(pubSeed, 32), LA, spec.wgenArr(hf, spec.sub(pubSeed, 32), OA, otsSeedOf(hf, skSeed, OA), 0, p.w), 0, p.len, ltreeT(p.len), 0)
 //@ func genLeafWOTS
+//@   names hashFunction leaf skSeed xmssParams pubSeed lTreeAddr otsAddr |  | seed pk
+//@   use xmss.L_wgenArr_cong
+//@   use xmss.L_lnode_cong2
+//@   use xmss.L_llen_table
+//@   hide spec.chain
+//@   hide spec.wgenNode
+//@   hide spec.randHash
+//@   hide spec.lnode
 //@   requires xmssParams.n == 32 && wotsOK(xmssParams.wotsParams) && len(leaf) >= 32 && len(skSeed) >= 32 && len(pubSeed) >= 32
+//@   ensures forall k_ :: 0 <= k_ && k_ < 5 ==> lTreeAddr[k_] == old(lTreeAddr[k_]) && otsAddr[k_] == old(otsAddr[k_])
+//@   ensures[XF] hashFunction <= 2 ==> forall q_ :: 0 <= q_ && q_ < 32 ==> leaf[q_] == leafOf(hashFunction, xmssParams.wotsParams, skSeed, pubSeed, arr(old(lTreeAddr)), arr(old(otsAddr)))[q_]
 //@   assigns leaf[0:32], *lTreeAddr, *otsAddr
+//@   after xmss.wOTSPKGen 1 assert[XF] hashFunction <= 2 ==> forall p_ :: 0 <= p_ && p_ < 32*xmssParams.wotsParams.len ==> pk[p_] == spec.wgenArr(hashFunction, spec.sub(pubSeed, 32), arr(otsAddr), seed, xmssParams.wotsParams.w)[p_]
+//@   after xmss.wOTSPKGen 1 assert[XF] hashFunction <= 2 ==> forall p_ :: 0 <= p_ && p_ < 32*xmssParams.wotsParams.len ==> pk[p_] == spec.wgenArr(hashFunction, spec.sub(pubSeed, 32), arr(old(otsAddr)), otsSeedOf(hashFunction, skSeed, arr(old(otsAddr))), 0, xmssParams.wotsParams.w)[p_]
+//@   after xmss.lTree 1 assert[XF] spec.llenS(xmssParams.wotsParams.len, ltreeT(xmssParams.wotsParams.len)) == 1 && spec.llen(xmssParams.wotsParams.len, ltreeT(xmssParams.wotsParams.len)) == 1
 
 //@ func XMSSFastGenKeyPair
+//@   names hashFunction xmssParams pk sk bdsState seed |  | n randombits rnd pks addr
 //@   props C02 C08 C09 C06
 //@   requires paramsOK(xmssParams) && len(pk) == 64 && len(sk) == 132 && bdsShape(bdsState, xmssParams.h)
 //@   ensures idxOf(sk) == 0
@@ -489,6 +553,7 @@ package xmss
 //@   assigns pk, sk, bdsAll(bdsState)
 
 //@ func xmssFastUpdate
+//@   names hashFunction params sk bdsState newIdx |  | numElems currentIdx skSeed startOffset pubSeed otsAddr j
 //@   props C02 C08
 //@   requires paramsOK(params) && len(sk) == 132 && bdsShape(bdsState, params.h)
 //@   panics "index too high" when newIdx >= spec.pow2(params.h)
@@ -498,6 +563,7 @@ package xmss
 //@   loop 1 invariant currentIdx <= j && j <= newIdx && currentIdx == old(idxOf(sk)) && numElems == spec.pow2(params.h)
 
 //@ func xmssFastSignMessage
+//@   names hashFunction params sk bdsState message |  | n idx skSeed skPRF pubSeed idxBytes32 hashKey R otsAddr msgHash err sigMsgLen sigMsg i otsSeed
 //@   props C02 C08 C01 C06
 //@   requires paramsOK(params) && len(sk) == 132 && bdsShape(bdsState, params.h) && idxOf(sk) < spec.pow2(params.h)
 //@   ensures idxOf(sk) == old(idxOf(sk)) + 1
@@ -512,6 +578,7 @@ package xmss
 //@   loop 1 invariant[C06,C01] forall k_ :: 0 <= k_ && k_ < i ==> sigMsg[4+k_] == R[k_]
 
 //@ func initializeTree
+//@   names desc seed |  | height hashFunction sk pk k w n xmssParams bdsState
 //@   props C02 C08 C09
 //@   pure
 //@   requires desc.height <= 30
@@ -519,6 +586,7 @@ package xmss
 //@   ensures xmssInv(result) && idxOf(result.sk) == 0 && result.height == desc.height && result.hashFunction == desc.hashFunction && result.seed[0:48] == seed[0:48] && result.desc.hashFunction == desc.hashFunction && result.desc.signatureType == desc.signatureType && result.desc.height == desc.height && result.desc.addrFormatType == desc.addrFormatType
 
 //@ func XMSS.SetIndex
+//@   names x newIndex |  | 
 //@   props C02 C08
 //@   requires xmssInv(x)
 //@   panics "index too high" when newIndex >= spec.pow2(x.height)
@@ -527,9 +595,11 @@ package xmss
 //@   assigns x.sk[0:4], bdsAll(x.bdsState)
 
 //@ func XMSS.GetIndex
+//@   names x |  | 
 //@   inline
 
 //@ func XMSS.Sign
+//@   names x message |  | index
 //@   props C02 C08 C01
 //@   requires xmssInv(x)
 //@   panics "index too high" when idxOf(x.sk) >= spec.pow2(x.height)
@@ -544,41 +614,52 @@ package xmss
 //@ pred sameKey(a, b) := a.sk[0:132] == b.sk[0:132] && a.height == b.height && a.hashFunction == b.hashFunction && a.seed[0:48] == b.seed[0:48] && a.desc.hashFunction == b.desc.hashFunction && a.desc.signatureType == b.desc.signatureType && a.desc.height == b.desc.height && a.desc.addrFormatType == b.desc.addrFormatType && bdsEq(a.bdsState, b.bdsState)
 
 //@ func NewXMSSFromSeed
+//@   names seed height hashFunction addrFormatType |  | signatureType desc
 //@   inline
 //@ func NewXMSSFromExtendedSeed
+//@   names extendedSeed |  | desc seed
 //@   inline
 //@ func NewXMSSFromHeight
+//@   names height hashFunction |  | seed _ err
 //@   inline
 //@ func XMSS.GetSeed
+//@   names x |  | 
 //@   inline
 
 //@ func XMSS.GetExtendedSeed
+//@   names x |  | extendedSeed descBytes seed
 //@   props C09
 //@   ensures[C09] result[0] == (x.desc.signatureType % 16) * 16 + x.desc.hashFunction % 16 && result[1] == (x.desc.addrFormatType % 16) * 16 + (x.desc.height / 2) % 16 && result[2] == 0
 //@   ensures[C09] result[3:51] == x.seed[0:48]
 
 //@ func verifLemmaRecoverFromExtendedSeed
+//@   names seed height hashFunction | a b | 
 //@   props C09
 //@   requires 4 <= height && height <= 30 && height % 2 == 0 && hashFunction < 16
 //@   ensures[C09] sameKey(a, b)
 
 //@ func verifLemmaRecoverFromMnemonic
+//@   names seed height hashFunction | a b | 
 //@   props C09
 //@   requires 4 <= height && height <= 30 && height % 2 == 0 && hashFunction < 16
 //@   ensures[C09] sameKey(a, b)
 
 //@ func verifLemmaFreshKeyRegenerates
+//@   names height hashFunction | a b | 
 //@   props C09
 //@   requires 4 <= height && height <= 30 && height % 2 == 0 && hashFunction < 16
 //@   panics "Failed to generate random seed for XMSS address"
 //@   ensures[C09] sameKey(a, b)
 
 //@ func XMSS.GetRoot
+//@   names x |  | 
 //@   inline
 //@ func XMSS.GetPKSeed
+//@   names x |  | 
 //@   inline
 
 //@ func XMSS.GetPK
+//@   names x |  | desc root pubSeed output offset i i i
 //@   props C09 C02
 //@   requires len(x.sk) == 132
 //@   ensures[C09,C02] result[0] == (x.desc.signatureType % 16) * 16 + x.desc.hashFunction % 16 && result[1] == (x.desc.addrFormatType % 16) * 16 + (x.desc.height / 2) % 16 && result[2] == 0
@@ -590,6 +671,7 @@ package xmss
 // ---- C08: path independence of the traversal state (lemma functions in zz_lemmas_verif.go) ----
 
 //@ func treeHashUpdate
+//@   names hashFunction treeHash bdsState skSeed params pubSeed addr |  | n otsAddr lTreeAddr nodeAddr nodeBuffer nodeHeight srcOffset destOffset
 //@   reads addr[0:3]
 //@   assigns *treeHash, bdsAll(bdsState)
 //@   trusted "BDS traversal internals: only named here so that the `reads addr[0:3]` clause of bdsTreeHashUpdate can be checked transitively"
@@ -598,6 +680,7 @@ package xmss
 // pure traversal calls is provably pairwise equal, but z3/cvc5 do not decide the resulting VCs within the time
 // limits (DESIGN.md, C08).  Kept for `govc func xmss.verifLemmaSignStepEqualsUpdateStep -p C08X`.
 //@ func verifLemmaSignStepEqualsUpdateStep
+//@   names hashFunction params skA skB bdsA bdsB message |  | idx
 //@   props C08X
 //@   inlines xmss.xmssFastSignMessage xmss.xmssFastUpdate
 //@   unroll xmss.xmssFastUpdate 1 1
@@ -613,6 +696,7 @@ package xmss
 //@   assigns skA[0:4], skB[0:4], bdsAll(bdsA), bdsAll(bdsB)
 
 //@ func verifLemmaUpdateToCurrentIsIdentity
+//@   names hashFunction params sk bds |  | idx
 //@   props C08
 //@   inlines xmss.xmssFastUpdate
 //@   unroll xmss.xmssFastUpdate 1 0
@@ -626,30 +710,38 @@ package xmss
 // seed only through its 32 bytes.
 //@ lemma xmss.L_wsigNode_congA[XF] uses xmss.L_chain_cong,-spec.chain,-spec.wdig : forall hf, PS:arr, A1:arr, A2:arr, SK:arr, sko, M:arr, mo, lw, w, len1, sh, nb, i :: (forall w_ :: 0 <= w_ && w_ < 5 ==> A1[w_] == A2[w_]) ==> spec.wsigNode(hf, PS, A1, SK, sko, M, mo, lw, w, len1, sh, nb, i) == spec.wsigNode(hf, PS, A2, SK, sko, M, mo, lw, w, len1, sh, nb, i)
 //@ lemma xmss.L_wgenNode_cong[XF] uses xmss.L_chain_cong,-spec.chain : forall hf, PS:arr, A1:arr, A2:arr, SK1:arr, o1, SK2:arr, o2, w, i :: (forall w_ :: 0 <= w_ && w_ < 5 ==> A1[w_] == A2[w_]) && (forall d_ :: 0 <= d_ && d_ < 32 ==> SK1[o1+d_] == SK2[o2+d_]) ==> spec.wgenNode(hf, PS, A1, SK1, o1, w, i) == spec.wgenNode(hf, PS, A2, SK2, o2, w, i)
+//@ lemma xmss.L_wgenArr_cong[XF] uses xmss.L_wgenNode_cong,-spec.chain,-spec.wgenNode : forall hf, PS:arr, A1:arr, A2:arr, SK1:arr, o1, SK2:arr, o2, w, p :: (forall w_ :: 0 <= w_ && w_ < 5 ==> A1[w_] == A2[w_]) && (forall d_ :: 0 <= d_ && d_ < 32 ==> SK1[o1+d_] == SK2[o2+d_]) ==> spec.wgenArr(hf, PS, A1, SK1, o1, w)[p] == spec.wgenArr(hf, PS, A2, SK2, o2, w)[p]
 //@ func verifLemmaLeafFromSignature
-//@   props C01L
-//@   inlines xmss.genLeafWOTS
+//@   names hashFunction msgHash skSeed pubSeed xmssParams lTreeAddr otsAddr | leafV leafG | params otsSeed a1 sig pk a2 l1 l2 a3
+//@   props C01
 //@   use xmss.L_wots_id
 //@   use xmss.L_wdig_range
-//@   use xmss.L_wsigNode_congA
-//@   use xmss.L_wgenNode_cong
+//@   use xmss.L_wgenArr_cong
 //@   use xmss.L_lnode_cong2
+//@   use xmss.L_llen_table
 //@   hide spec.chain
 //@   hide spec.wdig
 //@   hide spec.wsigNode
 //@   hide spec.wpkNode
 //@   hide spec.wgenNode
 //@   hide spec.randHash
+//@   hide spec.lnode
 //@   requires xmssParams.n == 32 && wotsOK(xmssParams.wotsParams) && len(msgHash) >= 32 && len(skSeed) >= 32 && len(pubSeed) >= 32
-//@   exit[C01L] hashFunction <= 2 ==> forall i_, q_ :: 0 <= i_ && i_ < params.len && 0 <= q_ && q_ < 32 ==> sig[32*i_+q_] == wsigN(hashFunction, pubSeed, arr(otsAddr), otsSeed, msgHash, params, i_)[q_]
-//@   exit[C01L] hashFunction <= 2 ==> forall i_, q_ :: 0 <= i_ && i_ < params.len && 0 <= q_ && q_ < 32 ==> pk[32*i_+q_] == wpkNode(hashFunction, pubSeed, arr(otsAddr), sig, msgHash, params, i_)[q_]
-//@   exit[C01L] hashFunction <= 2 ==> forall i_ :: 0 <= i_ && i_ < params.len ==> 0 <= wDigit(msgHash, params, i_) && wDigit(msgHash, params, i_) <= params.w - 1
-//@   exit[C01L] hashFunction <= 2 ==> forall i_, q_ :: 0 <= i_ && i_ < params.len && 0 <= q_ && q_ < 32 ==> pk[32*i_+q_] == wgenN(hashFunction, pubSeed, arr(otsAddr), otsSeed, params, i_)[q_]
-//@   ensures[C01L] hashFunction <= 2 ==> len(leafV) == 32 && len(leafG) == 32
+//@   after xmss.wotsPKFromSig 1 assert[C01] hashFunction <= 2 ==> forall i_, q_ :: 0 <= i_ && i_ < params.len && 0 <= q_ && q_ < 32 ==> sig[32*i_+q_] == wsigN(hashFunction, pubSeed, arr(otsAddr), otsSeed, msgHash, params, i_)[q_]
+//@   after xmss.wotsPKFromSig 1 assert[C01] hashFunction <= 2 ==> forall i_, q_ :: 0 <= i_ && i_ < params.len && 0 <= q_ && q_ < 32 ==> pk[32*i_+q_] == wpkNode(hashFunction, pubSeed, arr(otsAddr), sig, msgHash, params, i_)[q_]
+//@   after xmss.wotsPKFromSig 1 assert[C01] hashFunction <= 2 ==> forall i_ :: 0 <= i_ && i_ < params.len ==> 0 <= wDigit(msgHash, params, i_) && wDigit(msgHash, params, i_) <= params.w - 1
+//@   after xmss.wotsPKFromSig 1 assert[C01] hashFunction <= 2 ==> forall i_, q_ :: 0 <= i_ && i_ < params.len && 0 <= q_ && q_ < 32 ==> wpkNode(hashFunction, pubSeed, arr(otsAddr), sig, msgHash, params, i_)[q_] == wgenN(hashFunction, pubSeed, arr(otsAddr), otsSeed, params, i_)[q_] from 1..3
+//@   after xmss.wotsPKFromSig 1 assert[C01] hashFunction <= 2 ==> forall i_, q_ :: 0 <= i_ && i_ < params.len && 0 <= q_ && q_ < 32 ==> pk[32*i_+q_] == wgenN(hashFunction, pubSeed, arr(otsAddr), otsSeed, params, i_)[q_] from 2..4
+//@   after xmss.wotsPKFromSig 1 assert[C01] hashFunction <= 2 ==> forall p_ :: 0 <= p_ && p_ < 32*params.len ==> pk[p_] == spec.wgenArr(hashFunction, spec.sub(pubSeed, 32), arr(otsAddr), otsSeed, params.w)[p_]
+//@   after xmss.wotsPKFromSig 1 assert[C01] hashFunction <= 2 ==> forall p_ :: 0 <= p_ && p_ < 32*params.len ==> pk[p_] == spec.wgenArr(hashFunction, spec.sub(pubSeed, 32), arr(otsAddr), otsSeedOf(hashFunction, skSeed, arr(otsAddr)), 0, params.w)[p_]
+//@   after xmss.lTree 1 assert[C01] spec.llenS(params.len, ltreeT(params.len)) == 1 && spec.llen(params.len, ltreeT(params.len)) == 1
+//@   after xmss.lTree 1 assert[C01] hashFunction <= 2 ==> forall q_ :: 0 <= q_ && q_ < 32 ==> leafV[q_] == leafOf(hashFunction, params, skSeed, pubSeed, arr(lTreeAddr), arr(otsAddr))[q_]
+//@   ensures[C01] hashFunction <= 2 ==> len(leafV) == 32 && len(leafG) == 32 && forall q_ :: 0 <= q_ && q_ < 32 ==> leafV[q_] == leafG[q_] && leafG[q_] == leafOf(hashFunction, xmssParams.wotsParams, skSeed, pubSeed, arr(lTreeAddr), arr(otsAddr))[q_]
 // ---- C01: the WOTS+ sign-then-recover identity as a lemma function over the real wotsSign, wotsPKFromSig and wOTSPKGen:
 // the public key recomputed from a signature of ANY message equals the generated public key (all three parameter sets).
 // The per-chain step is lemma L_wots_id (chain composition + congruence, both by induction).
 //@ func verifLemmaWotsSignThenRecover
+//@   names hashFunction msg sk pubSeed params addr | pkFromSig pkGen | sig a1 a2 a3
 //@   props C01
 //@   use xmss.L_wots_id
 //@   use xmss.L_wdig_range
